@@ -129,7 +129,8 @@ def run(ctx):
     ctx.log("M1 MC_PDAlloc.cfg: %d generated, %d distinct, depth %d; deviant design violates Safe as expected" % (m1.generated, m1.distinct, m1.depth))
     # ---------------------------------------------------------------- M2
     scheds, genstates = [], 0
-    mixes3 = MIX3[(ctx.seed % len(MIX3)):][:1] if quick else MIX3
+    rot = MIX3[(ctx.seed % len(MIX3)):] + MIX3[:(ctx.seed % len(MIX3))]
+    mixes3 = rot[:1] if quick else rot[:2]
     ctx._specdir()
     from concurrent.futures import ThreadPoolExecutor
     with ThreadPoolExecutor(max_workers=max(1, min(4, ctx.workers // 2))) as ex:
@@ -216,7 +217,7 @@ def run(ctx):
         "evaluations": len(tl), "distinct_nontrivial": len(distinct),
         "exhaustive": (not quick),
         "rule": "every interleaving prefix (gate granularity: counters read / tmp written / renamed / replied) of 2 requests for 5 kind-batch mixes and "
-                "of 3 requests (quick: seeded sample of one mix, thorough: all of 3 mixes), enumerated by TLC from PDAlloc.tla under the deviant design, "
+                "of 3 requests (quick: seeded sample of one mix, thorough: all of 2 of the 3 mixes, rotating with the seed), enumerated by TLC from PDAlloc.tla under the deviant design, "
                 "each followed by a process death, a restart and two allocations; plus free-running goroutine runs. non-trivial = at least one "
                 "pre-emption of a request parked at a gate and at least one reply delivered before the crash",
         "samples": [{"schedule": scheds[sample], "events": tl[order.index(sample)]}],
